@@ -13,10 +13,9 @@ RULE = ('random op sequences on one repacketizer (init / cat / out / out_range /
         'pad / unpad / multistream pad / unpad (1..8 streams, in place) for new_len = len-1, len, len+1..3, +250..260, up to '
         '+1500; a case is distinct by its (op, outcome kind) class')
 NOT_COVERED = [
-    'extension carriage is proved for every call without the pad flag (out_roundtrip_ext_nopad), with the pad flag for lists in C16\'s '
-    'NoRepeat class (out_roundtrip_ext_partial), and for paddings that carry nothing / are malformed (out_malformed_padding_dropped); pad = 1 '
-    'together with the generator\'s repeat mechanism, and the exact size clauses of pad/unpad/pad_impl for packets with extensions, are tied '
-    'differentially (S3) and searched (S4) only',
+    'extension carriage (out_roundtrip_ext) is proved for out_range_impl; the exact SIZE clauses (BUFFER_TOO_SMALL iff ...) with extensions are '
+    'proved only as the equation outRangeImpl_ext_eq_gen in OpusProofs (not restated as a property theorem), and opus_packet_pad_impl / '
+    'unpad on packets WITH extensions are covered through out_range_impl only (pad_spec / unpad_spec assume extension-free padding)',
     'in-place operation is proved for opus_packet_unpad / opus_multistream_packet_unpad on valid packets (single-array model with the '
     'header-then-memmove order, tied byte for byte including the stale bytes after ret); the header bytes of that model are taken from the '
     'pure emit (they depend on TOC and frame lengths only); pad / multistream pad copy the packet first, so no overlap exists there',
@@ -36,16 +35,11 @@ REQUIRED_THEOREMS = [
     'OpusProps.C07.out_1277_suffices',
     'OpusProps.C07.pad_spec', 'OpusProps.C07.pad_rejects', 'OpusProps.C07.unpad_spec', 'OpusProps.C07.unpad_canonical',
     'OpusProps.C07.unpad_idempotent', 'OpusProps.C07.unpad_pad', 'OpusProps.C07.emitted_padding_ext_free', 'OpusProps.C07.ms_unpad_spec', 'OpusProps.C07.ms_pad_spec',
-    'OpusProps.C07.out_roundtrip_ext_nopad', 'OpusProps.C07.out_roundtrip_ext_partial', 'OpusProps.C07.out_malformed_padding_dropped',
+    'OpusProps.C07.out_roundtrip_ext', 'OpusProps.C07.out_roundtrip_ext_nopad', 'OpusProps.C07.out_roundtrip_ext_norepeat', 'OpusProps.C07.out_malformed_padding_dropped',
     'OpusProps.C07.unpad_in_place', 'OpusProps.C07.ms_unpad_in_place', 'OpusProps.C07.move_frames_safe',
     'OpusProps.C07.pad_same_packet_inputs', 'OpusProps.C07.pad_same_decode', 'OpusProps.C07.int_ranges_noext',
 ]
 UNPROVED = [
-    'out_roundtrip_ext, remaining gap: calls WITH the pad flag (opus_packet_pad_impl with extensions) whose gathered list makes '
-    'opus_packet_extensions_generate use its repeat mechanism (ID 2). out_roundtrip_ext_nopad is full for pad = 0 (out, out_range, unpad: any '
-    'list, repeats included, via C16 generate_parse_full); out_roundtrip_ext_partial covers pad = 1 for NoRepeat lists. Missing: a reader lemma '
-    'for repeat blocks preceded by 0x01 fill bytes (the iterator keeps repeat_data at the first fill byte); that case is tied (S3) and searched '
-    '(S4 clause out-extensions)',
     'int_ranges with extensions: tot_size + ext_len + nb_255s + 1 (repacketizer.c:286) is only bounded by about maxlen*(1+1/254); it stays '
     'inside opus_int32 when maxlen < 2^30, but for maxlen near INT_MAX together with > 2 GB of extension payload the 32-bit sum could wrap '
     '(not reachable with real buffers; recorded, not proved either way); int_ranges_noext covers the extension-free paths',
@@ -150,8 +144,8 @@ LEVEL_TEXT = ('proof of the Lean transcription of src/repacketizer.c for the ext
               'all op sequences; every emitted packet is the RFC serialisation of a valid packet holding exactly the selected '
               'frames and configuration bits (hence parses back, by the C06 completeness theorem), with exact size accounting '
               '(BUFFER_TOO_SMALL iff minimal size > maxlen, minimal among all valid packets with these frames, <= 1277 per frame); '
-              'pad/unpad specs (exact new_len, canonical, idempotent, never longer); extension carriage (padding reads back to the renumbered per-frame lists: any list without the pad flag, NoRepeat lists with it), malformed padding dropped; unpad / multistream unpad in place equal the pure model; integer ranges of the extension-free paths.  Tied to the code by differential op '
-              'sequences under ASan/UBSan with exact byte comparison; carriage through the generator\'s repeat mechanism is tie + search only')
+              'pad/unpad specs (exact new_len, canonical, idempotent, never longer); extension carriage at full strength (padding reads back, frame by frame, to the renumbered extension lists; repeats and pad flag included), malformed padding dropped; unpad / multistream unpad in place equal the pure model; integer ranges of the extension-free paths.  Tied to the code by differential op '
+              'sequences under ASan/UBSan with exact byte comparison; built on C16\'s generate/parse round trip')
 LEVEL_NOTE = ('trusted: Lean kernel; the correspondence harness and line protocol; bytes as naturals < 256; C int as unbounded Int; '
               'borrowed pointers modelled as owned copies (in-place overlap not modelled, compared by the tie)')
 TECHNIQUE = 'Lean 4 theorems (emitted bytes = RFC serialiser spec of a valid packet, composed with C06) + differential correspondence + property search'
